@@ -102,11 +102,10 @@ Definition conf_ok (req start limit n : Z) (t : option truth) : bool :=
   match t with
   | None => true
   | Some t =>
-      if t_height t <? n then true   (* notification ahead of the node's chain: outside the statement *)
-      else match t_tx t with
-           | Some h => (h <=? t_height t) && (req <=? t_height t - h + 1)
-           | None => false
-           end
+      match t_tx t with
+      | Some h => (h <=? t_height t) && (req <=? t_height t - h + 1)
+      | None => false
+      end
   end.
 
 (* walk the steps: [maxn] = highest height notified so far, [done] = a report was issued *)
